@@ -420,3 +420,46 @@ def abs_c08(w, sess, frames, t0, hs_len, res):
 
 
 ABSTRACT["C08"] = abs_c08
+
+
+def abs_c10(w, sess, frames, t0, hs_len, res):
+    """Msg events for client queries, Ans events pairing every DNS answer of the server with the query it answers
+    (same requester address and id, most recent), raw bytes; stratified and capped per run."""
+    evs = []
+    lastq = {}
+    seenkinds = {}
+    nmsg = nans = 0
+    for e in w.trace:
+        if e["ev"] == "Deliver" and e.get("to") == "S" and e["dst"][1] == 53:
+            d = e["data"]
+            if d[:3] != proto.RAW_HDR and len(d) >= 2:
+                lastq[(e["src"], d[0] << 8 | d[1])] = d
+        elif e["ev"] == "Send" and e["inst"] == "S" and e["dst"][1] != 5353:
+            d = e["data"]
+            if d[:3] == proto.RAW_HDR or len(d) < 2:
+                continue
+            q = lastq.get((e["dst"], d[0] << 8 | d[1]))
+            key = (len(d) // 64, d[3:8])
+            seenkinds[key] = seenkinds.get(key, 0) + 1
+            if seenkinds[key] > 3 or nans >= 60:
+                continue
+            nans += 1
+            if q is None:
+                evs.append({"e": "Ans", "q": [], "a": list(d)})
+            else:
+                evs.append({"e": "Ans", "q": list(q), "a": list(d)})
+        elif e["ev"] == "Send" and e["inst"].startswith("C"):
+            d = e["data"]
+            if d[:3] == proto.RAW_HDR:
+                continue
+            key = ("c", len(d) // 32)
+            seenkinds[key] = seenkinds.get(key, 0) + 1
+            if seenkinds[key] > 2 or nmsg >= 30:
+                continue
+            nmsg += 1
+            evs.append({"e": "Msg", "who": "C", "b": list(d)})
+    res["stats"]["c10_events"] = len(evs)
+    return evs
+
+
+ABSTRACT["C10"] = abs_c10
